@@ -23,6 +23,51 @@ func init() {
 			dumpDiv(p)
 		case "assert":
 			dumpAssert(p)
+		case "effects":
+			dumpEffects(p, os.Args[3:])
+		case "mapranges":
+			for _, fb := range p.funcBodies() {
+				if fb.Lit != nil {
+					continue
+				}
+				ast.Inspect(fb.Body, func(n ast.Node) bool {
+					if rs, ok := n.(*ast.RangeStmt); ok {
+						if _, ok := p.Info.TypeOf(rs.X).Underlying().(*types.Map); ok {
+							fmt.Printf("%s\t%s\trange %s\n", p.Pos(rs.Pos()), fb.Name, types.ExprString(rs.X))
+						}
+					}
+					return true
+				})
+			}
+		case "shallow":
+			e := p.newEffects()
+			for _, f := range p.allSSAFuncs() {
+				for _, u := range e.sums[f].shallow {
+					fmt.Printf("%-50s %s %s\n", ssaFuncName(f), p.Pos(u.Pos), u.What)
+				}
+			}
+		case "usercalls":
+			e := p.newEffects()
+			seen := map[string]bool{}
+			for _, f := range p.allSSAFuncs() {
+				for _, u := range e.sums[f].userCalls {
+					k := p.Pos(u.Pos) + " " + u.What
+					if !seen[k] {
+						seen[k] = true
+						fmt.Println(k)
+					}
+				}
+			}
+		case "writers":
+			e := p.newEffects()
+			for _, f := range p.allSSAFuncs() {
+				s := e.sums[f]
+				for k, ws := range s.writes {
+					if k[0] == 'P' || k[0] == 'G' || k[0] == 'U' {
+						fmt.Printf("%-60s %s  %s: %s\n", ssaFuncName(f), k, p.Pos(ws[0].Pos), ws[0].What)
+					}
+				}
+			}
 		}
 		os.Exit(0)
 	}
@@ -108,5 +153,43 @@ func dumpAssert(p *Program) {
 			}
 			return true
 		})
+	}
+}
+
+func dumpEffects(p *Program, names []string) {
+	e := p.newEffects()
+	for _, f := range p.allSSAFuncs() {
+		name := ssaFuncName(f)
+		if len(names) > 0 {
+			ok := false
+			for _, n := range names {
+				if n == name || n == f.Name() {
+					ok = true
+				}
+			}
+			if !ok {
+				continue
+			}
+		}
+		s := e.sums[f]
+		fmt.Printf("== %s\n", name)
+		for k, ws := range s.writes {
+			fmt.Printf("   writes %s <- %v\n", k, s.flows[k].keys())
+			for _, w := range ws {
+				fmt.Printf("      at %s: %s\n", p.Pos(w.Pos), w.What)
+			}
+		}
+		for i := range s.ret {
+			fmt.Printf("   ret[%d] = %v contents %v\n", i, s.ret[i].keys(), s.retContents[i].keys())
+		}
+		for k := range s.callbacks {
+			fmt.Printf("   callback %s\n", k)
+		}
+		for _, u := range s.userCalls {
+			fmt.Printf("   usercall %s %s\n", p.Pos(u.Pos), u.What)
+		}
+		for _, u := range s.shallow {
+			fmt.Printf("   shallow-copy %s %s\n", p.Pos(u.Pos), u.What)
+		}
 	}
 }
